@@ -603,6 +603,13 @@ def build(P):
 
     def c09_cases(tier, seed):
         shapes = [
+            # a global pointer left dangling at a local of a returned activation is re-pointed, by a later activation of the SAME routine, at that activation's local
+            # (which the allocator may well place where the old one was): it must be live again; and the reverse order (dangling again after the second return)
+            "TYPE P = ^INTEGER\nDECLARE g : P\nPROCEDURE Work(n : INTEGER)\nDECLARE loc : INTEGER\nDECLARE q : P\nloc <- n\nq <- ^loc\ng <- q\nOUTPUT \"in \", g^\ng^ <- g^ + 1\nOUTPUT loc\nENDPROCEDURE\nCALL Work(1)\nCALL Work(2)\nCALL Work(3)\nOUTPUT \"after\"\nOUTPUT g^",
+            "TYPE P = ^INTEGER\nDECLARE g : P\nPROCEDURE Work(n : INTEGER)\nDECLARE loc : INTEGER\nloc <- n\ng <- ^loc\nOUTPUT \"in \", g^\nENDPROCEDURE\nFOR k <- 1 TO 4\nCALL Work(k)\nNEXT k\nOUTPUT g^",
+            "TYPE P = ^STRING\nDECLARE g, h : P\nFUNCTION Work(s : STRING) RETURNS INTEGER\nDECLARE loc : STRING\nDECLARE q : P\nloc <- s & \"!\"\nq <- ^loc\nh <- g\ng <- q\nOUTPUT \"in \", g^\nRETURN LENGTH(g^)\nENDFUNCTION\nOUTPUT Work(\"a\")\nOUTPUT Work(\"bb\")\nOUTPUT Work(\"ccc\")\nOUTPUT h^",
+            "TYPE P = ^INTEGER\nTYPE R\nDECLARE p : P\nENDTYPE\nDECLARE gr : R\nPROCEDURE Work(n : INTEGER)\nDECLARE loc : INTEGER\nDECLARE lr : R\nloc <- n\nlr.p <- ^loc\ngr <- lr\nOUTPUT \"in \", gr.p^\nENDPROCEDURE\nCALL Work(1)\nCALL Work(2)\nOUTPUT gr.p^",
+            "TYPE P = ^INTEGER\nDECLARE g : P\nPROCEDURE Rec(n : INTEGER)\nDECLARE loc : INTEGER\nDECLARE q : P\nloc <- n * 10\nq <- ^loc\ng <- q\nIF n > 0 THEN\nCALL Rec(n - 1)\nENDIF\nOUTPUT \"back in \", n\ng <- q\nOUTPUT g^\nENDPROCEDURE\nCALL Rec(2)\nCALL Rec(1)",
             # ONE dereference site, several pointers, one activation: an array of pointers walked by a loop (read, write, read again), pointers in array-of-record fields, a pointer to a pointer that is re-pointed
             "TYPE P = ^INTEGER\nDECLARE ps : ARRAY[1:3] OF P\na <- 1\nb <- 2\nc <- 3\nps[1] <- ^a\nps[2] <- ^b\nps[3] <- ^c\nFOR i <- 1 TO 3\nOUTPUT ps[i]^\nps[i]^ <- ps[i]^ * 10\nNEXT i\nOUTPUT a, \" \", b, \" \", c\nFOR i <- 3 TO 1 STEP - 1\nOUTPUT ps[i]^\nNEXT i",
             "TYPE P = ^STRING\nTYPE Cell\nDECLARE p : P\nDECLARE k : INTEGER\nENDTYPE\nDECLARE cs : ARRAY[1:2] OF Cell\ns1 <- \"one\"\ns2 <- \"two\"\ncs[1].p <- ^s1\ncs[2].p <- ^s2\ni <- 1\nWHILE i <= 2 DO\nOUTPUT cs[i].p^\ncs[i].p^ <- cs[i].p^ & \"!\"\ni <- i + 1\nENDWHILE\nOUTPUT s1, \" \", s2",
